@@ -101,6 +101,24 @@ Theorem C16_nothing_else_touched : forall W fuel fs root body texts files files'
   content fs' c = content fs c.
 Proof. exact nothing_else_touched. Qed.
 
+Theorem C16_completed_trace : forall W fuel fs root body texts files files' fs' tr,
+  completed W fuel fs root body texts files files' fs' tr ->
+  tr = map OpRead (keys files) ++ map OpUnlink (removed_keys W texts files') ++ write_ops W texts files'.
+Proof. exact completed_trace. Qed.
+
+(* re-keying (alias_free excludes it): remove k, add k' spelling the same file.  Needs only that the KEPT
+   keys denote distinct files; true because every unlink precedes every write. *)
+Theorem C16_rekeyed_entry_survives : forall W fuel fs root body texts files files' fs' tr k k' m,
+  completed W fuel fs root body texts files files' fs' tr ->
+  NoDup (map (canon W) (keys files')) ->
+  In k (keys files) -> ~ In k (keys files') ->
+  In (k', m) files' -> ~ In k' (keys files) ->
+  canon W k' = canon W k ->
+  content fs' (canon W k) = Some (print W m) /\
+  exists pre post, tr = pre ++ post /\ In (OpUnlink k) pre /\ In (OpWrite k') post /\
+    (forall p, ~ In (OpWrite p) pre) /\ (forall p, ~ In (OpUnlink p) post).
+Proof. exact rekeyed_entry_survives. Qed.
+
 Theorem C16_bare_key_no_makedirs : forall W k,
   w_guard W = true -> dirname W k = [] -> mk_ops W k = [].
 Proof. exact bare_key_no_makedirs. Qed.
@@ -220,6 +238,25 @@ Example C16_nothing_else_touched_ex : content (ex_fs' false true) (zs "/t/a") = 
 Proof.
   apply (C16_nothing_else_touched (ex_W false true) _ _ _ _ _ _ _ _ _ (zs "/t/a") (ex_completed false true eq_refl) (ex_alias_free false true)).
   vm_compute. intros [E|[E|[E|[]]]]; discriminate.
+Qed.
+Example ex_completed2 :
+  completed (ex_W false true) ex_fuel ex_fs ex_root ex_body2 (ex_texts false true) (ex_files false true) ex_files2'
+            (fst (fst ex_out2)) (snd (fst ex_out2)).
+Proof. exists (fst (ex_bfs false true)), (skipn 3 (snd (fst ex_out2))). repeat split; vm_compute; reflexivity. Qed.
+Example C16_completed_trace_ex :
+  snd (fst ex_out2) = map OpRead [zs "m"; zs "a"; zs "b"] ++ [OpUnlink (zs "a"); OpUnlink (zs "b")]
+                      ++ [OpMakedirs (zs "/t"); OpWrite (zs "/t/a")].
+Proof. rewrite (C16_completed_trace _ _ _ _ _ _ _ _ _ _ ex_completed2). vm_compute. reflexivity. Qed.
+Example C16_rekeyed_entry_survives_ex : content (fst (fst ex_out2)) (zs "/t/a") = Some (zs "Q" ++ [NL]).
+Proof.
+  refine (proj1 (C16_rekeyed_entry_survives (ex_W false true) _ _ _ _ _ _ _ _ _ (zs "a") (zs "/t/a") (zs "Q" ++ [NL])
+                   ex_completed2 _ _ _ _ _ _)).
+  - apply nodupb_sound. vm_compute. reflexivity.
+  - vm_compute. tauto.
+  - vm_compute. intros [E|[E|[]]]; discriminate.
+  - vm_compute. tauto.
+  - vm_compute. intros [E|[E|[E|[]]]]; discriminate.
+  - vm_compute. reflexivity.
 Qed.
 Example C16_bare_key_no_makedirs_ex : mk_ops (ex_W false true) (zs "m") = [].
 Proof. apply C16_bare_key_no_makedirs; vm_compute; reflexivity. Qed.
